@@ -843,8 +843,16 @@ class Pass2(CompilePass):
                                 node=bound)
                     if not dim_range.is_const:
                         continue
-                    lbound = dim_range.static_lbound
-                    ubound = dim_range.static_ubound
+                    try:
+                        lbound = dim_range.static_lbound
+                        ubound = dim_range.static_ubound
+                    except (ArithmeticError, ValueError):
+                        raise CompileError(
+                            EC.INVALID_DIMENSIONS,
+                            'Array bounds overflow or cannot be '
+                            'evaluated',
+                            node=dim_range,
+                        )
                     if lbound > ubound:
                         raise CompileError(
                             EC.INVALID_DIMENSIONS,
